@@ -432,7 +432,15 @@ def _ggi_cases(rng, n):
                     "warm": [[rng.choice(c19.GLYPHS), rng.randrange(nloc)] for _ in range(rng.choice([0, 0, 1, 3]))] + ([[name, rng.randrange(nloc)]] if rng.random() < 0.5 and name != "not.there" else []),
                 })
     rng.shuffle(out)
-    return out[:n]
+    # corner cases first (whatever n is): the default source is NOT the first one and its `s` is empty / another master's is;
+    # a glyph whose code points differ between masters; a cache warmed for the same glyph at another location
+    first = [
+        {"family": "1ax-3m", "glyph": "s", "loc": 3, "round": True, "empty_s": False, "empty_s_index": 1, "warm": [["s", 1]]},
+        {"family": "1ax-3m", "glyph": "s", "loc": 4, "round": False, "empty_s": False, "empty_s_index": 0, "warm": []},
+        {"family": "1ax-3m", "glyph": "b", "loc": 0, "round": True, "empty_s": False, "empty_s_index": None, "warm": [["b", 5]]},
+        {"family": "2ax-sparse", "glyph": "b", "loc": 6, "round": False, "empty_s": False, "empty_s_index": None, "warm": []},
+    ]
+    return (first + out)[:n]
 
 
 def rt_instantiator(d):
